@@ -1,4 +1,4 @@
-import TSSVerif.Model.Wire
+import TSSVerif.Model.WireDisc
 import TSSVerif.Model.Translate
 /-!
 Membership synchronisation — model of `disc/discovery.go` (`Member.Synchronize`, `intersectedView`,
